@@ -1868,9 +1868,10 @@ class AstEval:
                 val[this_key] = await self.aeval(val_ast)
         return val
 
-    async def dictcomp_loop(self, generators, key, value):
-        """Recursive dict comprehension."""
-        out = {}
+    async def dictcomp_loop(self, generators, key, value, out=None):
+        """Recursive dict comprehension; every level inserts into the one result dict, like Python."""
+        if out is None:
+            out = {}
         gen = generators[0]
         for loop_var in await self.aeval(gen.iter):
             await self.recurse_assign(gen.target, loop_var)
@@ -1885,7 +1886,7 @@ class AstEval:
                     key_val = await self.aeval(key)
                     out[key_val] = await self.aeval(value)
                 else:
-                    out.update(await self.dictcomp_loop(generators[1:], key, value))
+                    await self.dictcomp_loop(generators[1:], key, value, out)
         return out
 
     async def ast_dictcomp(self, arg):
@@ -1904,9 +1905,10 @@ class AstEval:
             ret.add(elt)
         return ret
 
-    async def setcomp_loop(self, generators, elt):
-        """Recursive list comprehension."""
-        out = set()
+    async def setcomp_loop(self, generators, elt, out=None):
+        """Recursive set comprehension; every level adds to the one result set, like Python."""
+        if out is None:
+            out = set()
         gen = generators[0]
         for loop_var in await self.aeval(gen.iter):
             await self.recurse_assign(gen.target, loop_var)
@@ -1917,7 +1919,7 @@ class AstEval:
                 if len(generators) == 1:
                     out.add(await self.aeval(elt))
                 else:
-                    out.update(await self.setcomp_loop(generators[1:], elt))
+                    await self.setcomp_loop(generators[1:], elt, out)
         return out
 
     async def ast_setcomp(self, arg):
